@@ -363,13 +363,16 @@ def run_impl_only(prop, lines, tag="oracle"):
 
 
 def run_sub(args, timeout=3600):
-    """run a harness subcommand, return its stdout lines"""
+    """run a scenario binary, return its stdout lines.  If the process dies (signal / abort inside the crate) the lines printed so far
+    are kept and a `FAIL process-died …` line is appended: what was reported before the crash is still evidence."""
     exe = os.path.join(HARNESS, "target", "release", SCENARIO_BIN[args[0]])
     p = subprocess.run([exe] + [str(a) for a in args[1:]], stdout=subprocess.PIPE, stderr=subprocess.PIPE, text=True,
                        timeout=timeout)
+    lines = p.stdout.splitlines()
     if p.returncode != 0:
-        raise BuildError(f"vharness {args} failed rc={p.returncode}: {p.stderr[-2000:]}")
-    return p.stdout.splitlines()
+        tail = p.stderr.strip().splitlines()[-1][:200] if p.stderr.strip() else ""
+        lines.append(f"FAIL process-died rc={p.returncode} after {len(lines)} lines: {tail}")
+    return lines
 
 
 def fcanon(vals):
